@@ -3,4 +3,4 @@ Require Import Ojg.Base.Bytes Ojg.Base.Jv Ojg.Json.Machine Ojg.Json.Ref Ojg.Json
 Require Import Ojg.Jp.Expr Ojg.Jp.Show.
 Extraction Language OCaml.
 Extraction "model.ml" model_parse model_parse_chunks spec_accepts spec_parse
-  model_get model_match model_locate model_locate_ses model_first model_has model_mutate model_mutate_one model_jpstr.
+  model_get model_match model_locate model_locate_ses model_first model_has model_mutate model_mutate_one model_jpstr model_write.
